@@ -9,7 +9,7 @@
      ice palmode fontmode caret_font_page  npal rgb*  nfonts (slot id)*  (0 | 1 w h rest)  (0 | 1 ax ay lx ly addtype)  one mask word per buffer row
    (harness/src/c08.rs::xraw_obs); a step that does not report Ok ends the trace with its code (1 Err, 2 Panic). *)
 From Coq Require Import List ZArith NArith Bool Arith.
-From IE Require Import Gen.UndoGen Model.Undo Model.EditModel Model.EditOps Model.DocModel Model.DocOps Run.RunC08.
+From IE Require Import Gen.UndoGen Model.Undo Model.EditModel Model.EditOps Model.DocModel Model.DocOps Model.ScrollOps Run.RunC08.
 Import ListNotations.
 Local Open Scope Z_scope.
 
@@ -63,7 +63,7 @@ Inductive xstep :=
 | XCrop | XCropRect (x y w h : Z) | XResizeL (w h : Z)
 | XAddMask | XInverseSel | XEnumSel (k : Z) | XClrSel | XErase
 | XCenterLine | XJLineLeft | XJLineRight | XEraseRow | XEraseRowS | XEraseRowE | XEraseCol | XEraseColS | XEraseColE
-| XRotateL | XDelRow | XInsRow | XDelCol | XInsCol | XScrUp | XScrDown.
+| XRotateL | XDelRow | XInsRow | XDelCol | XInsCol | XScrUp | XScrDown | XScrLeft | XScrRight.
 
 (* the callback of the harness operation `enumsel k` *)
 Definition enum_cb (k : Z) (x y : Z) (c : cell) (_ : bool) : option bool :=
@@ -116,6 +116,8 @@ Definition run_xstep (v : xenv) (s : xstep) (e : XE) : res XE :=
   | XInsCol => x_insert_column e
   | XScrUp => x_scroll_area_whole true e
   | XScrDown => x_scroll_area_whole false e
+  | XScrLeft => lift_edit (api_scroll_area_lr true) e
+  | XScrRight => lift_edit (api_scroll_area_lr false) e
   end.
 
 Definition obs_fonts (f : fonts) : list Z :=
